@@ -1,5 +1,5 @@
 (* C03 — property theorems.  Only statements, `exact lemma`, Print Assumptions. *)
-From Sdns Require Import Common.Base Gen.C03 C03.Model C03.Proofs_Key C03.Proofs_Inj C03.Proofs_Store C03.Proofs_Failure.
+From Sdns Require Import Common.Base Common.GoList Gen.C03 C03.Model C03.Proofs_Key C03.Proofs_Inj C03.Proofs_Store C03.Proofs_Failure C03.Proofs_Gen C03.Proofs_Zones.
 Open Scope N_scope.
 
 (* Names are keyed identically whether they arrive as wire labels or as
@@ -296,3 +296,75 @@ Theorem purge_removes_covering_cuts :
     cut_lookup K (purge K K_eqb H q s) q = None.
 Proof. exact purge_cut_gone. Qed.
 Print Assumptions purge_removes_covering_cuts.
+
+(* ---- the ancestor walks: "same owner name, nothing broader" for zone-wide failures and subtree cuts, and "names
+   are keyed identically whether they arrive as wire labels or presentation text, including escaped and
+   non-printable octets" for the walks themselves.  For every well-formed label list over all 256 octet values:
+   the text walk of the decoded failure route (walkFailureZones on the canonical form of what the decoder
+   prints) visits exactly the lower-cased text of the name's label-level ancestors, root last; the wire walk
+   (walkWireSuffixes) visits exactly their wire forms; dnsname.Suffixes the same without the root. *)
+Theorem zone_walk_text_visits_label_ancestors :
+  forall ls, name_wf ls = true ->
+    name_suffixes (canonical (present ls)) = map (fun t => fold (present t)) (tails ls).
+Proof. exact name_suffixes_canonical_present_lemma. Qed.
+Print Assumptions zone_walk_text_visits_label_ancestors.
+
+Theorem zone_walk_wire_visits_label_ancestors :
+  forall ls, name_wf ls = true -> wire_name_suffixes (encode ls) = map encode (tails ls).
+Proof. exact wire_name_suffixes_encode_lemma. Qed.
+Print Assumptions zone_walk_wire_visits_label_ancestors.
+
+Theorem cut_walk_text_visits_label_ancestors :
+  forall ls, name_wf ls = true ->
+    label_suffixes (canonical (present ls)) = map (fun t => fold (present t)) (removelast (tails ls)).
+Proof. exact label_suffixes_canonical_present_lemma. Qed.
+Print Assumptions cut_walk_text_visits_label_ancestors.
+
+(* hence a zone-wide failure that answers a question on the decoded route (any key type, hash, store) was
+   recorded for a label-level ancestor t of the question's labels ls (ls = pre ++ t), in the question's class —
+   never for a name that is only a string suffix of the printed name (`b.example.` for `a\.b.example.`) *)
+Theorem failure_zone_hit_is_label_ancestor_msg :
+  forall (K : Type) (K_eqb : K -> K -> bool) (H : bytes -> K) (salt_fq salt_fz : K -> K) (s : store K) ls qt qc cd p fe,
+    name_wf ls = true ->
+    failure_lookup K K_eqb H salt_fq salt_fz s (mk_q (present ls) qt qc) cd p = Some fe -> f_kind fe = FZone ->
+    exists pre t, ls = pre ++ t /\ f_zone fe = fold (present t) /\ f_zclass fe = qc.
+Proof.
+  intros K K_eqb H salt_fq salt_fz s ls qt qc cd p fe Hw Hl Hz.
+  exact (failure_zone_hit_label_ancestor_lemma fe ls qt qc cd p Hw (failure_lookup_sound K K_eqb H salt_fq salt_fz s _ cd p fe Hl) Hz).
+Qed.
+Print Assumptions failure_zone_hit_is_label_ancestor_msg.
+
+(* ... and on the wire route the same ancestors, compared under the A-Z fold *)
+Theorem failure_zone_hit_is_label_ancestor_wire :
+  forall (K : Type) (K_eqb : K -> K -> bool) (H : bytes -> K) (salt_fq salt_fz : K -> K) (s : store K) ls qt qc cd fe,
+    name_wf ls = true ->
+    failure_lookup_wire K K_eqb H salt_fq salt_fz s (encode ls) qt qc cd = Some fe -> f_kind fe = FZone ->
+    exists pre t, ls = pre ++ t /\ fold (f_zone fe) = fold (present t) /\ f_zclass fe = qc.
+Proof.
+  intros K K_eqb H salt_fq salt_fz s ls qt qc cd fe Hw Hl Hz.
+  exact (failure_zone_hit_label_ancestor_wire_lemma fe ls qt qc cd Hw (failure_lookup_wire_sound K K_eqb H salt_fq salt_fz s _ qt qc cd fe Hl) Hz).
+Qed.
+Print Assumptions failure_zone_hit_is_label_ancestor_wire.
+
+(* a subtree cut that answers on the decoded route denies a non-root label-level ancestor-or-self of the name *)
+Theorem cut_hit_is_label_ancestor_msg :
+  forall (K : Type) (K_eqb : K -> K -> bool) (H : bytes -> K) (s : store K) ls qt qc c,
+    name_wf ls = true -> cut_lookup K s (mk_q (present ls) qt qc) = Some c ->
+    exists pre t, ls = pre ++ t /\ t <> [] /\ c_name c = fold (present t).
+Proof.
+  intros K K_eqb H s ls qt qc c Hw Hl.
+  destruct (cut_lookup_sound K K_eqb H s _ c Hl) as [_ [Hin _]].
+  exact (cut_hit_label_ancestor_lemma c ls Hw Hin).
+Qed.
+Print Assumptions cut_hit_is_label_ancestor_msg.
+
+(* translator tie: the loop of walkFailureZones, translated from the Go AST together with miekg's dns.NextLabel
+   (which decides by counting backslashes backwards whether a dot is escaped), started on a non-empty canonical
+   name with fuel > its length + 1 always ends by its return statement, having handed the callback the elements
+   of the model's name_suffixes in order up to the first one it refuses (or the root) *)
+Theorem gen_walkFailureZones_is_name_suffixes :
+  forall visit fuel zone, zone <> [] -> (length zone + 1 < fuel)%nat ->
+    go_walkFailureZones_loop1_run fuel visit zone =
+    (GoRet tt, (visit, match first_false visit (name_suffixes zone) with Some z => z | None => [46] end)).
+Proof. exact gen_walkFailureZones. Qed.
+Print Assumptions gen_walkFailureZones_is_name_suffixes.
